@@ -418,7 +418,7 @@ extern "C" int vf_run_case(const uint8_t * data, size_t size)
    else if (c.kind <= 11) {cls = "binary_encoding_switches"; RunBinary(c, AbstractMessageIOGatewayRef(new MessageIOGateway(MUSCLE_MESSAGE_ENCODING_DEFAULT+(int32)(bs.u8()%10))), AbstractMessageIOGatewayRef(new MessageIOGateway), false, true, false);}
    else if (c.kind == 12) {cls = "binary_zlib_independent_streams"; RunBinary(c, AbstractMessageIOGatewayRef(new IndependentStreamsGateway(MUSCLE_MESSAGE_ENCODING_ZLIB_1+(int32)(bs.u8()%9))), AbstractMessageIOGatewayRef(new MessageIOGateway), false, false, false);}
    else if (c.kind == 13) {cls = "counted"; RunBinary(c, AbstractMessageIOGatewayRef(new CountedMessageIOGateway(MUSCLE_MESSAGE_ENCODING_DEFAULT+(int32)(bs.u8()%10))), AbstractMessageIOGatewayRef(new CountedMessageIOGateway), false, false, false);}
-   else if (c.kind <= 16) {cls = "templating"; static const uint32 LRU[] = {0, 200, 4096, 1024*1024}; const uint32 lru = LRU[bs.u8()%4]; const int32 enc = bs.flip() ? MUSCLE_MESSAGE_ENCODING_ZLIB_6 : MUSCLE_MESSAGE_ENCODING_DEFAULT; snprintf(kb, sizeof(kb), "templating lru=%u", lru); c.desc = kb; RunBinary(c, AbstractMessageIOGatewayRef(new TemplatingMessageIOGateway(lru, enc)), AbstractMessageIOGatewayRef(new TemplatingMessageIOGateway(lru)), true, false, false);}
+   else if (c.kind <= 16) {cls = "templating"; static const uint32 LRU[] = {0, 200, 4096, 1024*1024}; const uint32 lru = LRU[bs.u8()%4]; const int32 enc = MUSCLE_MESSAGE_ENCODING_DEFAULT+(int32)(bs.u8()%10); const bool tsw = bs.flip(); snprintf(kb, sizeof(kb), "templating lru=%u", lru); c.desc = kb; RunBinary(c, AbstractMessageIOGatewayRef(new TemplatingMessageIOGateway(lru, enc)), AbstractMessageIOGatewayRef(new TemplatingMessageIOGateway(lru)), true, tsw, false); if (tsw) vf::Count("templating_with_encoding_switches");}
    else if (c.kind <= 18) {cls = "text"; RunText(c);}
    else if (c.kind == 19) {cls = "raw"; RunRawOrSlip(c, 0);}
    else if (c.kind == 20) {cls = "raw_min_chunk"; RunRawOrSlip(c, 1);}
